@@ -324,6 +324,22 @@ fn run_op(c: &mut Ctx, op: &Value) -> Value {
                 "remove_vehicle" => t.remove_vehicle(c.veh(&op["vehicle"]), &im::HashMap::new(), &tours, &nw),
                 "update_vehicle" => t.update_vehicle(c.veh(&op["vehicle"]), &c.tours[op["new_tour"].as_str().unwrap()], &im::HashMap::new(), &tours, &nw),
                 "add_vehicle_at_the_end" => t.add_vehicle_at_the_end(c.veh(&op["vehicle"]), op["cycle"].as_u64().unwrap() as usize, &im::HashMap::new(), &tours, &nw),
+                "batch" => {
+                    // as Schedule::update_transitions_and_violation_fast: shared old tours, growing map of updated tours
+                    let mut cur = t.clone();
+                    let mut updated: im::HashMap<VehicleIdx, &Tour> = im::HashMap::new();
+                    for sub in op["subs"].as_array().unwrap() {
+                        let v = c.veh(&sub["vehicle"]);
+                        if sub["what"].as_str().unwrap() == "update_vehicle" {
+                            let nt = &c.tours[sub["new_tour"].as_str().unwrap()];
+                            cur = cur.update_vehicle(v, nt, &updated, &tours, &nw);
+                            updated.insert(v, nt);
+                        } else {
+                            cur = cur.remove_vehicle(v, &updated, &tours, &nw);
+                        }
+                    }
+                    cur
+                }
                 "three_opt" => {
                     let ci = op["cycle"].as_u64().unwrap() as usize;
                     let cyc = t.get_cycle(ci).clone();
